@@ -42,6 +42,13 @@ func c06Catalogue() []Case {
 			Clients: [][]COp{{set(0, 1)}, {set(0, 2)}, {set(0, 3)}}},
 		{Prof: "c06", Keys: []string{"x"}, Epilogue: true, Note: "writer || gc || gc",
 			Prologue: []COp{set(0, 1), set(0, 2), set(0, 3)}, Clients: [][]COp{{set(0, 4), get(0)}, {{K: "gc"}}, {{K: "gc"}}}},
+		{Prof: "c06", Keys: []string{"x", "y"}, Epilogue: true, Deep: true, Note: "tx begins, writes, ends || another tx begins, writes, reads its own write, commits (transaction objects are pooled)",
+			Clients: [][]COp{{{K: "begin", Slot: 1, Lvl: 1}, {K: "set", Slot: 1, Key: 0, Len: 2}, {K: "rollback", Slot: 1}},
+				{{K: "begin", Slot: 2, Lvl: 1}, {K: "set", Slot: 2, Key: 1, Len: 3}, {K: "get", Slot: 2, Key: 1}, {K: "commit", Slot: 2}}}},
+		{Prof: "c06", Keys: []string{"x", "y"}, Epilogue: true, Deep: true, Note: "tx commits || another tx begins, writes, reads its own write, commits",
+			Prologue: []COp{{K: "begin", Slot: 1, Lvl: 0}, {K: "set", Slot: 1, Key: 0, Len: 2}},
+			Clients: [][]COp{{{K: "commit", Slot: 1}},
+				{{K: "begin", Slot: 2, Lvl: 1}, {K: "set", Slot: 2, Key: 1, Len: 3}, {K: "get", Slot: 2, Key: 1}, {K: "commit", Slot: 2}}}},
 		{Prof: "c06", Keys: []string{"x"}, Epilogue: true, Deep: true, Note: "writer || RC tx write-then-read || observer",
 			Prologue: []COp{{K: "begin", Slot: 1, Lvl: 1}},
 			Clients:  [][]COp{{set(0, 2)}, {{K: "set", Slot: 1, Key: 0, Len: 3}, {K: "get", Slot: 1, Key: 0}}, {get(0)}}},
